@@ -95,6 +95,7 @@ inductive WriteErr where
   | cmdEmpty           -- commands: no deletes and no writes
   | cmdDuplicate       -- commands: DuplicateTupleInWrite
   | cmdBadOption       -- commands: invalid on_duplicate / on_missing
+  | cmdInvalidKey      -- commands: a delete key with a malformed object / relation / user
 deriving DecidableEq, Repr, Inhabited
 
 def WriteErr.name : WriteErr → String
@@ -107,6 +108,7 @@ def WriteErr.name : WriteErr → String
   | .cmdEmpty => "cmd-empty"
   | .cmdDuplicate => "cmd-duplicate"
   | .cmdBadOption => "cmd-badoption"
+  | .cmdInvalidKey => "cmd-invalid-key"
 
 /-! ## memory backend -/
 
@@ -407,11 +409,22 @@ def hasDupKeys : List TupleKey → Bool
   | [] => false
   | k :: ks => ks.contains k || hasDupKeys ks
 
-/-- the part of `WriteCommand.Execute` in front of the datastore: `validateWriteRequest` (at least one item, no key
-    twice in deletes ++ writes; tuple validation against the model is assumed to pass), then the two option parsers -/
-def cmdFront (dupTable missTable : List (String × Bool)) (dels : List TupleKey) (writes : List TupleRec)
+def noneOf (bad : List Char) (s : String) : Bool := s.toList.all (fun c => !bad.contains c && !(c.toNat < 32 || c.toNat == 127))
+
+/-- `tuple.IsValidObject` (on the split object), `tuple.IsValidRelation`; `IsValidUser` is only modelled as
+    "non-empty, no space" (user strings are the subject of C18 / C29) -/
+def validDeleteKey (k : TupleKey) : Bool :=
+  (k.objType != "" && k.objId != "" && noneOf ['#', ' ', ':'] k.objType && noneOf ['#', ' ', ':'] k.objId)
+  && (k.relation != "" && noneOf ['#', ':', '@', ' '] k.relation)
+  && (k.user != "" && noneOf [' '] k.user)
+
+/-- the part of `WriteCommand.Execute` in front of the datastore: `validateWriteRequest` (at least one item; every
+    delete key well formed — `checkDeletes`, a fact of the source; no key twice in deletes ++ writes; validation of
+    the written tuples against the model is assumed to pass), then the two option parsers -/
+def cmdFront (dupTable missTable : List (String × Bool)) (checkDeletes : Bool) (dels : List TupleKey) (writes : List TupleRec)
     (onDuplicate onMissing : String) : Except WriteErr WriteOpts :=
   if dels.isEmpty && writes.isEmpty then .error .cmdEmpty
+  else if checkDeletes && dels.any (fun k => !validDeleteKey k) then .error .cmdInvalidKey
   else if hasDupKeys (dels ++ writes.map (·.key)) then .error .cmdDuplicate
   else match parseOption dupTable onDuplicate with
     | none => .error .cmdBadOption
@@ -421,9 +434,9 @@ def cmdFront (dupTable missTable : List (String × Bool)) (dels : List TupleKey)
       | some igM => .ok { ignoreMissing := igM, ignoreDup := igD }
 
 /-- `WriteCommand.Execute` over the memory backend -/
-def cmdWrite (ceq : TupleRec → TupleRec → Bool) (dupTable missTable : List (String × Bool)) (s : StoreState) (dels : List TupleKey) (writes : List TupleRec)
+def cmdWrite (ceq : TupleRec → TupleRec → Bool) (dupTable missTable : List (String × Bool)) (checkDeletes : Bool) (s : StoreState) (dels : List TupleKey) (writes : List TupleRec)
     (onDuplicate onMissing : String) (now : Nat) : StoreState × Option WriteErr :=
-  match cmdFront dupTable missTable dels writes onDuplicate onMissing with
+  match cmdFront dupTable missTable checkDeletes dels writes onDuplicate onMissing with
   | .error e => (s, some e)
   | .ok o => memWrite ceq s dels writes o now
 
